@@ -7,8 +7,8 @@
 
     Every handler is transcribed branch by branch, including the branches that send nothing
     and the Python exceptions that leave a handler (values of type [exn]).  The model is
-    parametrised by a [variant]: [V_orig] is the code before the repairs of this property
-    (commit 808478d), [V_fixed] the repaired code that is checked on every run.
+    parametrised by a [variant]: [V_orig] is the code before the repairs made for C07/C08
+    (main at dca1e6d), [V_fixed] the repaired code that is checked on every run.
     No proofs in this file. *)
 From Coq Require Import List NArith Arith Bool.
 From Whad Require Import Lib.Bytes.
@@ -80,6 +80,10 @@ Definition attr_value (db : db_t) (a : attr) : bytes :=
   end.
 
 Definition uuid16 (n : N) : bytes := le16 n.
+
+(** loop with [break] at the first element that does not satisfy [f] *)
+Fixpoint take_while {A} (f : A -> bool) (l : list A) : list A :=
+  match l with [] => [] | x :: r => if f x then x :: take_while f r else [] end.
 
 (** [attr.payload()] *)
 Definition payload (a : attr) : bytes :=
@@ -216,7 +220,7 @@ Record variant := mkVariant {
   fx_exec_flags : bool;   (* on_execute_write_request answers INVALID_PDU for unknown flags *)
   fx_fbtv : bool;         (* on_find_by_type_value_request: request.value, readability, payload() *)
   fx_exec_perm : bool;    (* on_execute_write_request checks write permission / security *)
-  fx_exec_clear : bool;   (* ... and clears the queues after a successful execute *)
+  fx_exec_clear : bool;   (* the queues are cleared after a successful execute (already on main: 625a00a) *)
   fx_sub_record : bool;   (* Write Request on a CCCD records the subscription *)
   fx_disc_term : bool;    (* LinkLayer.on_disconnect calls gatt.on_terminated() *)
   fx_group_desc : bool;   (* on_read_by_group_type_request: descriptors have end = handle *)
@@ -224,7 +228,7 @@ Record variant := mkVariant {
   fx_write_default : bool }. (* on_write_request answers WRITE_NOT_PERMITTED for the other attribute kinds *)
 
 Definition V_orig : variant :=
-  mkVariant false false false false false false false false false false false false.
+  mkVariant false false false false false false true false false false false false.
 Definition V_fixed : variant :=
   mkVariant true true true true true true true true true true true true.
 
@@ -332,8 +336,9 @@ Definition h_find_info (st : state) (s e : N) : hres :=
       let fmt := if usz =? 2 then 1 else 2 in
       let isz := usz + 2 in
       let maxn := (mtu_of st - 2) / isz in
+      (* items of the first item's UUID size; the loop stops at the first other size *)
       let items := map (fun a => (a_handle a, a_type a))
-                       (filter (fun a => nlen (a_type a) =? usz) (firstn (N.to_nat maxn) attrs)) in
+                       (take_while (fun a => nlen (a_type a) =? usz) (firstn (N.to_nat maxn) attrs)) in
       done st [PFindInfoRsp fmt items]
   end.
 
@@ -629,8 +634,8 @@ Definition h_read_by_type (st : state) (s e : N) (ty : bytes) : hres :=
         let isz := usz + 5 in
         let maxn := (m - 2) / isz in
         let items := map (fun a => (a_handle a, payload a))
-                         (filter (fun a => (nlen (a_uuid a) =? usz) && kind_eqb (a_kind a) KDecl)
-                                 (firstn (N.to_nat maxn) attrs)) in
+                         (filter (fun a => kind_eqb (a_kind a) KDecl)
+                                 (take_while (fun a => nlen (a_uuid a) =? usz) (firstn (N.to_nat maxn) attrs))) in
         match items with [] => err st OP_RBT s E_NOT_FOUND | _ => done st [PReadByTypeRsp isz items] end
       else if bytes_eqb ty (uuid16 10242) then (* 0x2802 *)
         let isz := 8 in
